@@ -305,6 +305,10 @@ def do_part(test, ph, part):
             return None
         sys.settrace(_tracer)
         sys.settrace(None)
+    if part.get("gcthreshold"):
+        # test code that tunes the collector and does not put the thresholds back
+        import gc
+        gc.set_threshold(123, 7, 7)
     if part.get("warnfilter"):
         # test code that changes the warning filters and does not restore them
         import warnings
